@@ -286,9 +286,16 @@ def shape_cases(ctx, n):
                       scope_term(sc), shape.term()))
             cases.append((inp, C.V(obs), case, fails))
             continue
+        if raised and sends and sends[-1][0] == "body" and sends[-1][2] is False and gone_at is None:
+            # an application that failed must not have its response completed behind its back (the server turns the missing
+            # end into a 500 or a visibly cut-short response)
+            pre_fail = {"case": {"kind": "shape", "worker": worker, "shape": shape.describe()},
+                        "what": f"the application raised, yet the response was completed: {sends[-2:]}", "signature": "shape:completed-after-error"}
+        else:
+            pre_fail = None
         case = {"kind": "shape", "worker": worker, "shape": shape.describe(), "separate_iterator": separate, "max_body": max_body,
                 "body_len": total, "parts": [len(p) for p in parts], "root_path": sc["root_path"], "path": sc["path"], "obs": obs}
-        fails = []
+        fails = [pre_fail] if pre_fail else []
         # PEP 3333 oracle
         if total > max_body:
             if rec["calls"] != 0 or not sends or sends[0][:2] != ["start", 400]:
